@@ -1004,7 +1004,7 @@ impl<'a, 'b> B<'a, 'b> {
     }
 
     fn type_ref(&mut self) {
-        match self.t.weighted(&if self.opts.simple { [10, 2, 2, 2, 1, 1, 0, 0, 0, 0] } else { [10, 2, 2, 2, 1, 1, 1, 1, 1, 1] }) {
+        match self.t.weighted(&if self.opts.simple { [10, 2, 2, 2, 1, 1, 1, 1, 1, 1] } else { [10, 2, 2, 2, 1, 1, 1, 1, 1, 1] }) {
             6 => {
                 self.tag("packed-type");
                 self.kw("packed");
@@ -1044,7 +1044,17 @@ impl<'a, 'b> B<'a, 'b> {
                 self.op(",");
                 self.named("TList");
                 self.op("<");
-                self.type_name();
+                if self.t.chance(1, 2) {
+                    // three levels
+                    self.named("TPair");
+                    self.op("<");
+                    self.type_name();
+                    self.op(",");
+                    self.type_name();
+                    self.op(">");
+                } else {
+                    self.type_name();
+                }
                 self.op(">");
                 self.op(">");
             }
